@@ -210,7 +210,7 @@ func checkC01(c *Ctx) {
 // a call to an extension function or to a grol-defined function of the root environment
 var reLibCall = regexp.MustCompile(`\b(sqrt|floor|ceil|trunc|round|runes|rune_len|split|join|trim|trim_left|trim_right|min|max|int|abs|keys|type|sprintf|printf|str|json|eval|format)\(`)
 
-var reOutsideSem = regexp.MustCompile(`\b(quote|unquote|macro)\(`)
+var reOutsideSem = regexp.MustCompile(`\b(quote|unquote|macro)\(|ERRTEXT`)
 
 func replayC01(rp map[string]any) (bool, string) {
 	src, _ := rp["src"].(string)
